@@ -30,7 +30,7 @@ BUDGET = {"quick": 2400, "thorough": 60000}
 FUZZ = {"quick": 3200, "thorough": 160000}  # executions of the coverage-guided stage (vlib/fuzz.py)
 RULE = (
     "case = (mode in {diagonal, direct, greens, kpm, operator}, spectrum with degenerate groups / complex energies, "
-    "right-hand side, value type, block index and orientation, dtype). Non-trivial = degenerate or near-degenerate "
+    "right-hand side, value type, block index and orientation, dtype; operator mode: the solver object may first be asked for another block pair; direct mode: real-dtype H_0 with conjugate pairs). Non-trivial = degenerate or near-degenerate "
     "group, complex energies, an implicit orientation, sparse/symbolic right-hand side or reduced-precision dtype."
 )
 ASSUMPTIONS = [
